@@ -62,7 +62,8 @@ MIN_NONTRIVIAL = 50
 # 'in progress' from receipt of the request (True, the stated assumption) or only while being served (False);
 # VERIF_C23_IN_PROGRESS=served selects the second reading for experiments
 QUEUED_WINDOW = os.environ.get("VERIF_C23_IN_PROGRESS", "receipt") != "served"
-PIPELINED = True  # generate histories in which the next request(s) arrive while an operation is still being served
+# generate histories in which the next request(s) arrive while an operation is still being served (VERIF_C23_PIPELINED=0 drops them)
+PIPELINED = os.environ.get("VERIF_C23_PIPELINED", "1") != "0"
 
 
 class _Stop(Exception):
